@@ -118,7 +118,7 @@ struct Snap {
 }
 
 struct Shared {
-    events: Mutex<Vec<StoreEvent>>,
+    events: Mutex<Vec<Sx>>,
     flush_depth: Mutex<(u64, u64)>, // (begun, ended)
     snap: Mutex<Option<Snap>>,
     snap_cv: Condvar,
@@ -375,7 +375,7 @@ impl Child {
             }
             "events" => {
                 let evs = std::mem::take(&mut *self.shared.events.lock().unwrap());
-                Sx::l(vec![Sx::a("events"), Sx::list(&evs, event_sx)])
+                Sx::l(vec![Sx::a("events"), Sx::l(evs)])
             }
             "effects" => {
                 let mut g = self.shared.snap.lock().unwrap();
@@ -469,10 +469,24 @@ pub fn main(dir: &str) {
                 StoreEvent::FlushEnd => sh.flush_depth.lock().unwrap().1 += 1,
                 _ => {}
             }
-            sh.events.lock().unwrap().push(e.clone());
+            sh.events.lock().unwrap().push(event_sx(e));
         })));
         let sh = shared.clone();
         hooks::set_fs_effect(Some(Arc::new(move |e: &hooks::FsEffect| {
+            if e.after && e.op == "write" {
+                // payload size of a WAL segment (the envelope adds 48 bytes)
+                let parent_is_wal = e.path.parent().and_then(|p| p.file_name()).map(|n| n == "wal").unwrap_or(false);
+                if parent_is_wal {
+                    let fname = e.path.file_name().unwrap().to_string_lossy().to_string();
+                    if let Some(id) = fname.split('.').next().and_then(|x| x.parse::<u64>().ok()) {
+                        sh.events.lock().unwrap().push(Sx::l(vec![
+                            Sx::a("wal_write"),
+                            Sx::int(id),
+                            Sx::int(e.len.saturating_sub(48)),
+                        ]));
+                    }
+                }
+            }
             // effects are serialised while snapshots are taken: `before` takes the token, `after` returns it
             let mut g = sh.snap.lock().unwrap();
             if g.is_none() {
